@@ -36,14 +36,24 @@ where
     }
 
     pub(crate) fn run(mut self) -> Result<(), S::Error> {
+        // When the search is stopped before the end of the input, the bytes
+        // searched extend to the end of the line at which it stopped, just
+        // as they do when searching a slice.
+        let mut stopped_at = None;
         if self.core.begin()? {
-            while self.fill()? && self.core.match_by_line(self.rdr.buffer())? {
+            while self.fill()? {
+                if !self.core.match_by_line(self.rdr.buffer())? {
+                    stopped_at = Some(
+                        self.rdr.absolute_byte_offset()
+                            + self.core.pos() as u64,
+                    );
+                    break;
+                }
             }
         }
-        self.core.finish(
-            self.rdr.absolute_byte_offset(),
-            self.rdr.binary_byte_offset(),
-        )
+        let byte_count =
+            stopped_at.unwrap_or_else(|| self.rdr.absolute_byte_offset());
+        self.core.finish(byte_count, self.rdr.binary_byte_offset())
     }
 
     fn fill(&mut self) -> Result<bool, S::Error> {
